@@ -15,18 +15,24 @@ def history(draw):
   ops = []
   created = 0
   for _ in range(n):
-    k = draw(st.sampled_from(["new", "assign", "assign", "read", "read", "augment"]))
+    k = draw(st.sampled_from(["new", "assign", "assign", "read", "read", "augment", "discard"]))
     if k == "new" or created == 0:
       ops.append(["new", draw(st.integers(0, 1))])
       created += 1
     else:
       inst = draw(st.integers(0, created - 1))
       attr = draw(st.integers(0, nattr - 1))
-      if k == "read":
+      if k == "discard":
+        ops.append(["discard", inst])      # the instance is dropped and garbage collected
+        for _ in range(3):
+          ops.append(["new", draw(st.integers(0, 1))])
+          created += 1
+      elif k == "read":
         ops.append(["read", inst, attr])
       else:
         ops.append([k, inst, attr, draw(st.integers(-5, 5))])
-  return {"nattr": nattr, "base": base, "ops": ops}
+  return {"nattr": nattr, "base": base, "ops": ops,
+          "falsy": draw(st.integers(0, 3)) == 0}      # instances that are falsy (container-like classes)
 
 
 class C29(Prop):
@@ -36,7 +42,9 @@ class C29(Prop):
   rule = ("Hypothesis-generated histories: a freshly defined class (subclass of "
           "ThreadSafeAttributes or ActiveObjectWithAttributes, or two sibling classes with the same "
           "attribute names) with 1-3 names in _attributes, then 2-12 operations from: create an "
-          "instance, assign an attribute on an instance, augment (+=) it, read it. Oracle: a dict "
+          "instance, assign an attribute on an instance, augment (+=) it, read it, discard an instance "
+          "(dropped and garbage collected, then a new one is created - possibly at the same address); "
+          "in a quarter of the cases the classes make their instances falsy (__len__ / __bool__). Oracle: a dict "
           "keyed by (instance, attribute) that defaults to 0: every read returns the model value of "
           "THAT instance. Non-trivial: >=2 instances exist and an assignment to one happens between "
           "two reads of another; distinct = distinct case digests.")
@@ -53,16 +61,50 @@ class C29(Prop):
       bases = [(miros.ActiveObjectWithAttributes,)] * 2
     else:
       bases = [(miros.ThreadSafeAttributes,)] * 2
-    k0 = type("VfHolder0", bases[0], {"_attributes": list(names)})
-    k1 = type("VfHolder1", bases[1], {"_attributes": list(names)}) if case["base"] == "two_classes" else k0
+    body0, body1 = {"_attributes": list(names)}, {"_attributes": list(names)}
+    if case.get("falsy") and case["base"] != "ActiveObjectWithAttributes":
+      body0["__len__"] = lambda self: 0
+      body1["__bool__"] = lambda self: False
+    k0 = type("VfHolder0", bases[0], body0)
+    k1 = type("VfHolder1", bases[1], body1) if case["base"] == "two_classes" else k0
     klasses = [k0, k1]
     insts, model = [], {}
+    o = None
     last_read, interleaved = {}, False
     for idx, op in enumerate(case["ops"]):
       where = "op %d %s" % (idx, op)
       try:
         if op[0] == "new":
-          insts.append(klasses[op[1]]())
+          fresh = klasses[op[1]]()
+          insts.append(fresh)
+          # a brand-new instance reads 0 for every attribute (freshly allocated objects often
+          # reuse the address of a discarded one)
+          for nm in names:
+            v = getattr(fresh, nm)
+            if v != 0:
+              fresh = None
+              return self.fail(stats, case, True, "%s: a new instance reads %s == %r before any assignment "
+                               "(instances so far: %d)" % (where, nm, v, len(insts)))
+          fresh = None
+          continue
+        if op[0] == "discard":
+          if insts[op[1]] is not None:
+            insts[op[1]] = None
+            o = None                 # no lingering reference from the previous operation
+            import gc
+            gc.collect()
+            # many fresh objects: one of them almost surely lands where the discarded one was
+            crowd = [k_() for k_ in klasses for _ in range(40)]
+            for c_ in crowd:
+              for nm in names:
+                v = getattr(c_, nm)
+                if v != 0:
+                  crowd = c_ = None
+                  return self.fail(stats, case, True, "%s: a new instance, created after another was "
+                                   "garbage collected, reads %s == %r before any assignment" % (where, nm, v))
+            crowd = c_ = None
+          continue
+        if insts[op[1]] is None:
           continue
         o, name = insts[op[1]], names[op[2]]
         key = (op[1], name)
